@@ -57,6 +57,29 @@ def r1(cx):
                 ao = M.operand_origins(cb, cb.term(g)["args"][1], at=(g, M.T))
                 if any(x[0] == "upvar" and str(x[1]) in loc_caps for x in ao):
                     ok = True
+    # no error of the backing store is swallowed on the miss path: from the failure edge of any Result switch no Ok exit is reachable
+    if clo:
+        for k2 in cx.prog.sub_bodies(clo[0]["def"]):
+            cb = cx.body(k2)
+            if cb is None or cx.prog.calls[k2].get("kind") != "coroutine":
+                continue
+            okx = {e[0] for e in M.exit_defs(cb) if e[2] == "ok"}
+            swallowed = []
+            for bi, blk in enumerate(cb.blocks):
+                tt = blk["term"]
+                if tt["k"] != "switch" or blk.get("cleanup") or not (tt.get("enum") or "").endswith("::Result"):
+                    continue
+                fe = [(bi, tg) for nme, tg in zip(tt["variants"], tt["targets"]) if nme == "Err"]
+                if "Err" not in (tt["variants"] or []):
+                    fe.append((bi, tt["otherwise"]))
+                for e in fe:
+                    if okx & (cb.reachable(e[1]) | {e[1]}):
+                        swallowed.append(bi)
+            if swallowed:
+                cx.violation(k2, "miss-path-swallows-store-error", "%s: on the cache-miss path an error of the backing store (e.g. a body stream failing after the first chunk) is dropped and the "
+                             "closure still returns Ok: a truncated body is handed to the reader and cached under the object's key" % cb.sp(swallowed[0]), [cb.sp(s) for s in swallowed[:2]])
+            else:
+                cx.passed(k2, "miss-path-swallows-store-error", [cb.j["span"]])
     if ok:
         cx.passed(gk, "miss-reads-same-location", [b.sp(gofs[0])])
     else:
@@ -89,9 +112,26 @@ def r1(cx):
             cx.passed(fk, "promotion-of-same-key", [fb.sp(bi)])
         else:
             cx.violation(fk, "insert-after-successful-fetch", "%s: a value is inserted into a cache tier that is not the successfully fetched content (or the L2 entry of the same key)" % fb.sp(bi), [fb.sp(bi)])
-    # returned data: L1 hit, L2 hit or the fetched value
+    # returned data: L1 hit, L2 hit or the fetched value - nothing else
     exits = [e for e in M.exit_defs(fb) if e[2] == "ok"]
     cx.floor("Ok exits of get_or_fetch", len(exits), 3, fk)
+    tier_blocks = {bi for bi, tt in tier_calls if tt["callee"].endswith("::get")}
+    for (bi, si, cls) in exits:
+        if si == M.T:
+            continue
+        rv = fb.blocks[bi]["stmts"][si]["rv"]
+        if rv["k"] != "agg" or not rv["ops"]:
+            continue
+        org = M.operand_origins(fb, rv["ops"][0], at=(bi, si), adapters=M.PURE_ADAPTERS | {"std::sync::Arc::<T>::new", "bytes::Bytes::from", "std::convert::From::from", "foyer::CacheEntry::<K, V, S>::value"})
+        srcs = {x[1][0] for x in org if x[0] == "call"}
+        allowed = tier_blocks | set(fetches)
+        foreign = sorted(srcs - allowed)
+        foreign = [x for x in foreign if not re.search(r"fetch_add|record_cache|telemetry|Instant|elapsed", fb.term(x)["callee"])]
+        if srcs & allowed and not foreign:
+            cx.passed(fk, "returns-only-this-keys-content", [fb.sp(bi, si)])
+        else:
+            cx.violation(fk, "returns-only-this-keys-content", "%s: get_or_fetch can return data that is neither a tier's entry for this key nor the content this call fetched (from %s): "
+                         "a reader is answered with another object's bytes" % (fb.sp(bi, si), [fb.term(x)["callee"].rsplit("::", 2)[-2:] for x in foreign][:2] or "nothing recognisable"), [fb.sp(bi, si)])
 
 
 @rule("C16", "R2", "every other method of the caching store delegates to the backing store's method of the same name with its own arguments (delete / rename invalidate first)")
